@@ -553,7 +553,7 @@ func gen(w *kit.Out, r *kit.Rand, tier string) {
 	thorough := tier == "thorough"
 	nAlloc, nProg, nRaw := 40, 30, 30
 	if thorough {
-		nAlloc, nProg, nRaw = 600, 250, 200
+		nAlloc, nProg, nRaw = 600, 120, 120
 	}
 	genAllocScripts(w, r.Fork(), nAlloc)
 	// C04's generated programs as probes
@@ -571,14 +571,17 @@ func gen(w *kit.Out, r *kit.Rand, tier string) {
 	for _, kind := range minigo.SourceKinds {
 		sizes := []int{1 + rs.Intn(8), 40 + rs.Intn(200)}
 		if thorough {
-			sizes = append(sizes, 1000+rs.Intn(3000), 20000+rs.Intn(20000))
+			sizes = append(sizes, 1000+rs.Intn(3000))
+			if rs.Chance(50) {
+				sizes = append(sizes, 20000+rs.Intn(20000))
+			}
 		}
 		for _, n := range sizes {
 			gas := gasQuick
-			if thorough && rs.Chance(40) {
+			if thorough && rs.Chance(25) {
 				// well below the 3e9 block maximum: the watchdog (150 s) must stay far
 				// from what a gas-bounded run can take on a loaded machine
-				gas = 300_000_000
+				gas = 150_000_000
 			}
 			switch kind {
 			case "const-string-double":
@@ -605,6 +608,11 @@ func gen(w *kit.Out, r *kit.Rand, tier string) {
 				// known finding defer-panic-recursion-memory: time and untracked memory grow
 				// quadratically with the gas; the pinned witness is in the corpus
 				gas = min(gas, 3_000_000)
+			case "recover-loop":
+				// same defect family (a panic raised inside a deferred call keeps the whole
+				// chain: time and memory quadratic in the depth, gas linear): n=2000 already
+				// takes most of a minute for 28M gas
+				n = min(n, 300)
 			}
 			w.Case(fmt.Sprintf("src-%s-%d", kind, n))
 			w.Op("src %s %d %d", kind, n, gas)
